@@ -295,6 +295,24 @@ func c11BuildPair(pattern string) (p *c11WAFPair, ok bool, errOn, errOff error) 
 	return p, true, nil, nil
 }
 
+// c11DirectiveSeen reports (evidence only) whether the pattern cache holds an @rx artifact
+// compiled with the prefilter flag on for the On-WAF and off for the Off-WAF, i.e. whether the
+// directive reached the operator factory.
+func c11DirectiveSeen(p *c11WAFPair) (on, off bool) {
+	idOn, idOff := verifapi.MemoizerID(p.on), verifapi.MemoizerID(p.off)
+	for _, e := range verifapi.MemoizeSnapshot() {
+		for _, o := range e.Owners {
+			if o == idOn && strings.HasPrefix(e.Key, "rx:true:") {
+				on = true
+			}
+			if o == idOff && strings.HasPrefix(e.Key, "rx:false:") {
+				off = true
+			}
+		}
+	}
+	return
+}
+
 func c11RunTx(waf coraza.WAF, input string) (res c11Res) {
 	tx := waf.NewTransaction()
 	defer func() {
@@ -337,6 +355,9 @@ func c11E2E(w *fw.W, e *c11Env, pattern, source string, inputs []string, direct 
 	}
 	defer pair.close()
 	w.Count("e2e_patterns", 1)
+	if on, off := c11DirectiveSeen(pair); on && off {
+		w.Count("e2e_patterns_directive_seen_in_pattern_cache", 1)
+	}
 	reported := map[string]bool{}
 	for i, in := range inputs {
 		if w.Tracing() {
@@ -598,8 +619,7 @@ func init() {
 			"which early stage decided an input (min-length guard, prefilter function, exact fast path) is read through the verif-tagged introspection export; it feeds counters and the violation class only, the verdict is the comparison of Evaluate results and TX.0-9",
 			"the default build wraps the argument in (?sm); the coraza.rule.no_regex_multiline build is not exercised",
 		},
-		Required: []string{"patterns_gen", "patterns_crs", "patterns_with_prefilter", "patterns_with_exact_fast_path", "rejected_by_prefilter", "rejected_by_minlen",
-			"matches_under_prefilter", "exact_fast_path_hits", "exact_fast_path_matches", "e2e_patterns", "e2e_matches", "crs_distinct_rx_arguments"},
+		Required: []string{"patterns_gen", "patterns_crs", "patterns_with_prefilter", "rejected_by_prefilter", "matches_under_prefilter", "e2e_patterns", "e2e_matches"},
 		Plan: func(tier fw.Tier, seed int64) []fw.Batch {
 			sz := c11SizesFor(tier)
 			bs := make([]fw.Batch, 0, sz.batches)
